@@ -675,3 +675,76 @@ def timers(ctx):
     ctx.witness("breakup-warning-reach", I, pre, vars=vars_)
     ctx.prove("breakup-warning-starts-at-trigger", I, z3.And(pre, z3.Not(fnum(I, bs, h.now))), vars=vars_, replay=replay_b)
     ctx.bound("each arming event from an arbitrary consistent state in which it applies")
+
+
+# ---------------------------------------------------------------------------------------------- Z7 what the cluster state machine hands out is sent
+@vc("C18", "Z7-vam-carries-the-cluster-containers")
+def vam_containers(ctx):
+    """VAMTransmissionManagement.send_next_vam: the VAM handed to the coder carries the cluster information container iff the state machine provides
+    one and the cluster operation container iff it provides one - independently (a leader in break-up warning provides both; its members learn the
+    break-up only from the operation container)"""
+    import threading
+    from flexstack.facilities.vru_awareness_service.vam_transmission_management import VAMTransmissionManagement, VAMMessage
+    from flexstack.utils.time_service import TimeService
+    I = make("int")
+    I.stubs[TimeService.time] = lambda it, a, k, pc: it.float_var("now", 1.6e9, 2.3e9)
+    has_info, has_op = z3.Bool("state_machine_provides_information_container"), z3.Bool("state_machine_provides_operation_container")
+    info, op = Opaque("cluster-information-container"), Opaque("cluster-operation-container")
+    cm = Opaque("clustering_manager")
+    I.stubs[id(cm)] = lambda it, name, a, k, pc: {"get_cluster_information_container": Guarded([(has_info, info), (z3.Not(has_info), None)]),
+                                                  "get_cluster_operation_container": Guarded([(has_op, op), (z3.Not(has_op), None)])}[name]
+    I.stubs[VAMTransmissionManagement._attach_lf_container_if_due] = lambda it, a, k, pc: None
+    encoded = []
+    coder = Opaque("coder")
+
+    def enc(it, name, a, k, pc):
+        # the structure as it is at the moment of the call (later writes must not count)
+        p = path_get(it, a[0], "vam", "vamParameters", pc=pc)
+        encoded.append((pc, it._lb(it.sdict_lookup(p, "vruClusterInformationContainer")[0]), it._lb(it.sdict_lookup(p, "vruClusterOperationContainer")[0]),
+                        it.sdict_lookup(p, "vruClusterInformationContainer")[1], it.sdict_lookup(p, "vruClusterOperationContainer")[1]))
+        return b"\x00"
+    I.stubs[id(coder)] = enc
+    btp = Opaque("btp_router")
+    I.stubs[id(btp)] = lambda it, name, a, k, pc: None
+    hf = SDict([(TRUE, "speed", SDict([(TRUE, "speedValue", 100, False)]), False), (TRUE, "heading", SDict([(TRUE, "value", 900, False)]), False)])
+    params = SDict([(TRUE, "basicContainer", SDict([(TRUE, "referencePosition", SDict([(TRUE, "latitude", 413000000, False), (TRUE, "longitude", 21000000, False)]), False)]), False),
+                    (TRUE, "vruHighFrequencyContainer", hf, False)])
+    vam = Obj(VAMMessage, dict(vam=SDict([(TRUE, "header", SDict([(TRUE, "stationId", 7, False)]), False),
+                                          (TRUE, "vam", SDict([(TRUE, "generationDeltaTime", 5, False), (TRUE, "vamParameters", params, False)]), False)])))
+    o = Obj(VAMTransmissionManagement, dict(logging=logger(I), clustering_manager=cm, vru_basic_service_ldm=None, vam_coder=coder, btp_router=btp,
+                                            last_vam_info_lock=threading.Lock(), last_vam_generation_delta_time=None, last_sent_position=None,
+                                            last_vam_speed=None, last_vam_heading=None, is_first_vam=True))
+    I.call_function(VAMTransmissionManagement.send_next_vam, [o, vam])
+    exc = cond_or(c for c, _ in I.raises)
+    vars_ = {"state_machine_provides_information_container": has_info, "state_machine_provides_operation_container": has_op}
+
+    def replay(vals):
+        from unittest import mock
+        cm_ = mock.Mock()
+        cm_.get_cluster_information_container.return_value = {"vruClusterInformation": {"clusterId": 9}} if vals["state_machine_provides_information_container"] else None
+        cm_.get_cluster_operation_container.return_value = {"clusterBreakupInfo": {"clusterBreakupReason": 0, "breakupTime": 3}} if vals["state_machine_provides_operation_container"] else None
+        coder_ = mock.Mock()
+        seen = []
+        coder_.encode.side_effect = lambda d: (seen.append(dict(d["vam"]["vamParameters"])), b"\x00")[1]
+        m = VAMTransmissionManagement(mock.Mock(), coder_, mock.Mock(), None, None)
+        m.vam_coder, m.clustering_manager = coder_, cm_
+        v = VAMMessage()
+        try:
+            m.send_next_vam(v)
+        except Exception as e:          # noqa
+            return True, f"send_next_vam raised {type(e).__name__}: {e}"
+        if len(seen) != 1:
+            return True, f"{len(seen)} VAMs handed to the coder"
+        gi, go = "vruClusterInformationContainer" in seen[0], "vruClusterOperationContainer" in seen[0]
+        wi, wo = bool(vals["state_machine_provides_information_container"]), bool(vals["state_machine_provides_operation_container"])
+        return (gi, go) != (wi, wo), f"state machine provides information={wi} operation={wo}; the VAM handed to the coder carries information={gi} operation={go}"
+    ctx.witness("containers-reach-both", I, z3.And(z3.Not(exc), has_info, has_op, *[c for c, *_ in encoded]), vars=vars_, validate=lambda v: not replay(v)[0])
+    ctx.prove("containers-no-exception", I, exc, vars=vars_, replay=replay)
+    bad = [z3.And(c, z3.Or(gi != has_info, go != has_op, z3.And(has_info, z3.BoolVal(vi is not info) if not isinstance(vi, Guarded) else z3.Not(z3.Or(*[cc for cc, x in vi.alts if x is info]))),
+                           z3.And(has_op, z3.BoolVal(vo is not op) if not isinstance(vo, Guarded) else z3.Not(z3.Or(*[cc for cc, x in vo.alts if x is op])))))
+           for c, gi, go, vi, vo in encoded]
+    ctx.prove("containers-sent-iff-provided", I, z3.Or(*bad) if bad else TRUE, vars=vars_, replay=replay,
+              desc="information container present iff provided, operation container present iff provided (all four combinations), each being the object the state machine returned")
+    ctx.bound("one VAM; the two containers are opaque objects (their content is C11's subject); LF container attachment stubbed (C10 W4)")
+    ctx.stub("clustering manager returns the container or None per a free Boolean each; coder records the parameters at the call; BTP router, LDM absent")
+
